@@ -531,7 +531,7 @@ def amp(name, complex_cfg, cplx=False):
 
 def preset_cases(pname, complex_cfg, thorough):
     """(layout, argument list without the lattice) for the bounded expansion of preset pname"""
-    omax = 3
+    omax = 4 if thorough else 3
     smax = 3
     out = []
 
@@ -545,7 +545,7 @@ def preset_cases(pname, complex_cfg, thorough):
         nm = {"addCoulombS/4": ["U", "eps"], "addLevel/3": ["eps"], "addMagnetization/3": ["mH"], "addCoulombP/6": ["U", "Up", "J", "eps"], "addCoulombP/5": ["U", "J", "eps"]}[pname]
         for o in range(1, omax + 1):
             for s in range(1, smax + 1):
-                if pname.startswith("addCoulombP") and o * s > 6:
+                if pname.startswith("addCoulombP") and o * s > (8 if thorough else 6):
                     continue
                 for av in amps(nm):
                     out.append(({"A": (o, s)}, ["A"] + av))
@@ -698,8 +698,8 @@ def body(chk, db, cfgname):
             elif ncase == 0:
                 raise AnalysisBroken("no documented layout was expanded for " + pname)
             else:
-                r2.ok(site, f.loc(), "%s; summary expanded on %d bounded layouts/argument patterns (<= 3 orbitals, <= 3 spins, amplitudes symbolic or zero) equals the documented operator" % (
-                    "emission structure identical to the reviewed reference (all layouts)" if same_structure else "emission structure: %d records" % len(recs), ncase), cfgname)
+                r2.ok(site, f.loc(), "%s; summary expanded on %d bounded layouts/argument patterns (<= %d orbitals, <= 3 spins, amplitudes symbolic or zero) equals the documented operator" % (
+                    "emission structure identical to the reviewed reference (all layouts)" if same_structure else "emission structure: %d records" % len(recs), ncase, 4 if thorough else 3), cfgname)
 
     # R3: structural, all layouts
     f = db.fn(LP + "addHopping", nparams=8)
